@@ -181,3 +181,55 @@ func Verif_C15_random() {
 	best, _ := a.GetMinLatency(nil)
 	_ = best
 }
+
+// Verif_C15_policy_switch: a group that starts under the random policy (or a min policy) is
+// switched at run time to a min-latency policy after its nodes were measured: the choice made
+// right after the switch obeys the same rule as ever - latency plus the node's configured offset,
+// no alive measured node better by the tolerance or more.
+func Verif_C15_policy_switch() {
+	w := &c15World{lat: map[*Dialer]time.Duration{}, has: map[*Dialer]bool{}}
+	c15Install(w)
+	n := 2
+	tol := time.Duration(vs.IntRange("tolerance", 0, 1_000_000_000))
+	ds := make([]*Dialer, n)
+	annos := make([]*Annotation, n)
+	off := make([]time.Duration, n)
+	for i := range ds {
+		ds[i] = &Dialer{property: &Property{}}
+		off[i] = time.Duration(vs.IntRange("offset"+strconv.Itoa(i), 0, 1_000_000_000))
+		annos[i] = &Annotation{AddLatency: off[i]}
+	}
+	from := []consts.DialerSelectionPolicy{consts.DialerSelectionPolicy_Random, consts.DialerSelectionPolicy_MinAverage10Latencies}[vs.Choice("startPolicy", 2)]
+	a := NewAliveDialerSet(nil, "g", &NetworkType{}, tol, from, ds, annos, func(alive bool) {}, false)
+	aliveG := make([]bool, n)
+	for i := range ds {
+		w.has[ds[i]] = vs.Bool("node" + strconv.Itoa(i) + ".measured")
+		w.lat[ds[i]] = time.Duration(vs.IntRange("node"+strconv.Itoa(i)+".latency", 0, 10_000_000_000))
+		aliveG[i] = vs.Bool("node" + strconv.Itoa(i) + ".alive")
+		a.NotifyLatencyChange(ds[i], aliveG[i])
+	}
+	a.SetSelectionPolicy(consts.DialerSelectionPolicy_MinLastLatency)
+	sl := func(i int) time.Duration {
+		if !w.has[ds[i]] {
+			return 0
+		}
+		return w.lat[ds[i]] + off[i]
+	}
+	best, bestLat := a.GetMinLatency(nil)
+	if !aliveG[0] && !aliveG[1] {
+		vs.Assert("min: nothing when none alive", best == nil)
+		return
+	}
+	bi := 0
+	if best == ds[1] {
+		bi = 1
+	}
+	vs.Assert("min returns an alive node", best != nil && aliveG[bi])
+	if w.has[best] {
+		vs.Assert("reported latency is the node's latency plus offset", bestLat == sl(bi))
+		o := 1 - bi
+		if aliveG[o] && w.has[ds[o]] {
+			vs.Assert("no measured alive node beats the choice by the tolerance or more", !(sl(o)+tol <= sl(bi)) || sl(o) == sl(bi))
+		}
+	}
+}
